@@ -90,6 +90,7 @@ def check(prog, run):
         check_docstring(prog, run, name, fspec, fn, file)
     check_unmarshall_wrapper(prog, run)
     check_get_opcode(prog, run)
+    check_get_opcode_history(prog, run)
     check_hidden_required_kwargs(prog, run)
     run.count("methods", nmeth)
     run.count("paths", npaths)
@@ -344,6 +345,40 @@ def check_get_opcode(prog, run):
             else:
                 run.violation("get-opcode", c, "first match is %r with value %r, expected an OpCode with value %#x" % (first, v, val),
                               file, f.node.lineno, f.qualname)
+
+
+def check_get_opcode_history(prog, run):
+    """what get_opcode yields for one table does not depend on the tables it was asked about before: after a lookup in
+    every other command set, the lookup in this one still yields this table's own object (each table has its own OpCode
+    objects -- a result remembered under a key two tables share would hand one table's object to the other)"""
+    I = prog.I
+    f = prog.func("pyscsi.utils.converter", None, "get_opcode")
+    file = prog.rel(f.module)
+    mod = prog.module(ENUM_MOD)
+    for s in SETS:
+        e = mod.env[s]
+        for part in ("9E", "A3"):
+            own = [v for k, v in e.members.items() if k.endswith("_OPCODE_" + part)]
+            if not own:
+                continue
+
+            def t(e=e, part=part, s=s):
+                for other in SETS:
+                    if other != s:
+                        g0 = I.call_function(f, [mod.env[other], part], {}, None, _F())
+                        if isinstance(g0, GenVal):
+                            g0.take_all()
+                g = I.call_function(f, [e, part], {}, None, _F())
+                return g.items[0] if isinstance(g, GenVal) and g.items else None
+            c = "get_opcode(%s, %r) after the same lookup in every other command set" % (s, part)
+            for p in I.explore(t, max_paths=8):
+                first = p.value if p.returned else None
+                if first is own[0]:
+                    run.ok("get-opcode", c)
+                else:
+                    run.violation("get-opcode", c, "yields %s, not the %s table's own operation code object"
+                                  % ("nothing" if first is None else ("an object of another table" if isinstance(first, Instance) else repr(first)), s),
+                                  file, f.node.lineno, f.qualname)
 
 
 def check_hidden_required_kwargs(prog, run):
